@@ -1,4 +1,6 @@
 import GuppyVerif.Spec.C03
+import GuppyVerif.Model.Wiring
+import GuppyVerif.Model.OrderEdges
 import GuppyVerif.Util.Sexp
 /-! Line-protocol driver for C03 / C05 (protocol: notes/C03.md §Protocol).
     `(build RN (s*))`                      -> `ok HS (cfg (bb i R|U (stmts …) (pred e|none) (succ …) (dsucc …)) …)` | `err K`
@@ -166,6 +168,48 @@ def runCfg (rn : Bool) (body : Stmt) (st : Store) (fuel : Nat) : String :=
     | some c =>
       if c.b == 1 then showOut (c.ret.getD .none) c.s.2 else s!"err stuck-at-{c.b}"
 
+/-! `(wire ENTRY (in P*) (outs (row P*)…) (exits B*))` with P = `(p NAME D)` → `ok (inputs P*) (deliver (P*)…)` -/
+def place? : Sexp → Option Wiring.Place
+  | .list [.atom "p", .atom n, .atom d] => some ⟨n, d == "1"⟩
+  | _ => none
+def showPlace (p : Wiring.Place) : String := s!"(p {p.name} {if p.droppable then "1" else "0"})"
+def showPlaces (tag : String) (ps : List Wiring.Place) : String :=
+  "(" ++ " ".intercalate ((if tag == "" then [] else [tag]) ++ ps.map showPlace) ++ ")"
+
+def handleWire (entry : String) (inS outsS exitsS : Sexp) : String :=
+  match inS, outsS, exitsS with
+  | .list (.atom "in" :: ins), .list (.atom "outs" :: rows), .list (.atom "exits" :: exs) =>
+    match ins.mapM place?, rows.mapM (fun r => match r with
+        | .list (.atom "row" :: ps) => ps.mapM place?
+        | _ => none), exs.mapM Sexp.asAtom? with
+    | some inRow, some outRows, some ex =>
+      let sig : Wiring.Sig := ⟨inRow, outRows⟩
+      match Wiring.deliver sig (ex.map (· == "1")) with
+      | none => "err assert"
+      | some ds =>
+        "ok " ++ showPlaces "inputs" (Wiring.blockInputs (entry == "1") sig) ++ " (" ++
+          " ".intercalate ("deliver" :: ds.map (showPlaces "")) ++ ")"
+    | _, _, _ => "bad-op"
+  | _, _, _ => "bad-op"
+
+/-! `(order (N PARENT KIND EFF)…)`: node insertions in order; PARENT = index or `-`; KIND = f|c|g|o (FuncDefn,
+    Conditional, CFG, other); EFF = 0|1 → `ok DUP (edges (a b)…)` (order edges in creation order) -/
+def onode? : Sexp → Option OrderEdges.Node
+  | .list [.atom "N", .atom par, .atom k, .atom e] =>
+    let kind? : Option OrderEdges.Kind := match k with
+      | "f" => some .funcDefn | "c" => some .cond | "g" => some .cfg | "o" => some .other | _ => none
+    match kind? with
+    | some kind => if par == "-" then some ⟨none, kind, e == "1"⟩ else par.toNat?.map fun p => ⟨some p, kind, e == "1"⟩
+    | none => none
+  | _ => none
+
+def handleOrder (xs : List Sexp) : String :=
+  match xs.mapM onode? with
+  | some nds =>
+    let s := OrderEdges.runAll nds
+    s!"ok {if s.dup then 1 else 0} (" ++ " ".intercalate ("edges" :: s.edges.map fun e => s!"({e.1} {e.2})") ++ ")"
+  | none => "bad-op"
+
 def handle (line : String) : String :=
   match Sexp.parse line with
   | some (.list [.atom "build", .atom rn, body]) =>
@@ -179,6 +223,8 @@ def handle (line : String) : String :=
     match stmts? body, args? args, fuel.asNat? with
     | some p, some st, some fu => s!"py {runPy p st fu} cfg {runCfg (rn == "1") p st fu}"
     | _, _, _ => "bad-op"
+  | some (.list [.atom "wire", .atom entry, inS, outsS, exitsS]) => handleWire entry inS outsS exitsS
+  | some (.list (.atom "order" :: xs)) => handleOrder xs
   | _ => "bad-op"
 
 def main : IO Unit := do lineLoop (← IO.getStdin) handle
